@@ -44,6 +44,11 @@ def _sources(ctx, sc):
         calls = "".join("    (println (nlv_marker_%d))\n" % i for i in range(k))
         text = body + "fn main() -> int {\n    (println \"NLV-START\")\n" + calls + "    return 0\n}\nshadow main { assert true }\n"
         srcs.append(sc.file("syn/syn%d.nano" % k, text))
+    # the same small program with a string constant padded by 0..7 bytes: body sizes of every residue mod 8 (a checksum
+    # routine that mishandles a tail of size % 4 or % 8 bytes protects most files and not these)
+    for pad in range(8):
+        text = (MARK % (0, 0, 0, 0)) + 'fn main() -> int {\n    (println "NLV-START%s")\n    (println (nlv_marker_0))\n    return 0\n}\nshadow main { assert true }\n' % ("p" * pad)
+        srcs.append(sc.file("syn/synpad%d.nano" % pad, text))
     return srcs
 
 
@@ -139,14 +144,18 @@ def run(ctx):
         mods.sort(key=lambda m: (m[2], m[0]))
         syn_hosts = [m for m in mods if os.path.basename(m[0]).startswith("syn")][:2]
         want = ctx.n(10, 60)
+        pads = [m for m in mods if os.path.basename(m[0]).startswith("synpad")]
         if len(mods) > want:
             # evenly spaced over the size range
             idx = sorted(set(int(i * (len(mods) - 1) / (want - 1)) for i in range(want)))
             mods = [mods[i] for i in idx]
+        mods += [m for m in pads if m not in mods]
+        ctx.require(len(set((m[2] - 32) % 8 for m in mods)) == 8, "module body sizes do not cover every residue mod 8")
         ctx.require(len(mods) >= 4, "fewer than 4 compiler-produced modules available (%d)" % len(mods))
         # modules whose checksum is a special value (0, all ones, the polynomial, the CRC residue ...): a loader that gives
         # any checksum value a meaning ("0 = none recorded") protects every other file and none of these
         forged = []
+        forged_refused = []
         for s_, p_, z_ in syn_hosts:
             d0 = open(p_, "rb").read()
             for tgt in SPECIAL_CRCS:
@@ -155,9 +164,13 @@ def run(ctx):
                     continue
                 fp_ = sc.file("forged/%s_%08x.nvm" % (os.path.basename(p_)[:-4], tgt), f_)
                 ctl = sh([asan.nano_vm, fp_], cpu=20, san=True)
-                ctx.require(ctl.rc == 0 and len(ctl.out) >= 1, "forged module with checksum %08x does not run: %s" % (tgt, ctl.brief()))
+                if not (ctl.rc == 0 and len(ctl.out) >= 1):
+                    # a loader whose checksum is not the format's CRC-32 refuses the forged file: not a C12 matter by
+                    # itself (nothing damaged was accepted); the host is skipped and the fact recorded
+                    forged_refused.append("%s/%08x" % (os.path.basename(p_), tgt))
+                    continue
                 forged.append((s_, fp_, len(f_)))
-        ctx.require(len(forged) >= 4, "could not forge special-checksum modules (%d)" % len(forged))
+        ctx.require(len(forged) >= 4 or forged_refused, "could not forge special-checksum modules (%d)" % len(forged))
         n_forged = len(forged)
         mods = mods + forged
 
@@ -312,6 +325,8 @@ def run(ctx):
             "daemon_outcomes": dm_outcomes,
             "daemon_phases": ["fresh daemon", "after the daemon served the intact file", "after it served it twice"],
             "forged_special_checksum_modules": n_forged,
+            "forged_modules_refused_by_the_loader": forged_refused,
+            "body_sizes_mod_8_covered": sorted(set((m[2] - 32) % 8 for m in mods)),
             "special_checksums": ["%08x" % c for c in SPECIAL_CRCS],
             "samples": samples,
         }, assumptions=[
